@@ -602,7 +602,22 @@ func (c07) Regressions() []*Case {
 			Meta: map[string]interface{}{"builds": 60, "weak": true, "xkey": fmt.Sprintf("r%d", i)}}
 	}
 	x3 := [][2]string{{"a.b/x", "A"}, {"c.d/x", "B"}, {"e.f/x", "C"}}
+	// second recorded finding: keys whose rendered texts are EQUAL (legal for non-constant map
+	// keys such as calls) come out in map iteration order - the sort is stable
+	eq := func(i int, nf bool) *Case {
+		d := &term.Dict{}
+		for j := 0; j < 4; j++ {
+			d.Pairs = append(d.Pairs, [2]term.Node{term.S(term.Id("f"), term.G("Call")), term.S(term.Lit(j + 1))})
+		}
+		st := term.S(term.Named("Var"), term.Id("_"), term.Op("="), term.G("Map", term.S(term.G("Interface"))), term.G("Interface"), term.G("Values", d))
+		h := hist.History{{Kind: "newfile", F: 0, A: "p"}, {Kind: "noformat", F: 0, Flag: nf}, {Kind: "fadd", F: 0, Code: st},
+			{Kind: "render", F: 0}, {Kind: "imports", F: 0}}
+		return &Case{Name: "dict-equal-key-texts-in-map-order", Hist: h, Stream: "regression", NonTrivial: true,
+			Tags: []string{"full-domain", "equal-key-texts=4"},
+			Meta: map[string]interface{}{"builds": 60, "weak": true, "xkey": fmt.Sprintf("e%d", i)}}
+	}
 	return []*Case{
+		eq(0, true), eq(1, false),
 		mk(0, hist.History{{Kind: "prefix", F: 0, A: "pkg"}}, false, x3, false),
 		mk(1, nil, false, [][2]string{{"a.b/d", "A"}, {"c.b/d", "B"}, {"e.f/d", "C"}, {"x.y/d1", "D"}, {"math/rand", "E"}, {"crypto/rand", "F"}}, false),
 		mk(2, hist.History{{Kind: "importnames", F: 0, Pairs: [][2]string{{"a.b/x", "foo"}, {"x.y/os", "foo"}, {"a.b/fmt", "foo"}}}}, true,
